@@ -1065,6 +1065,155 @@ func (m *sim) walkCheck(v view, prefix string, site string) {
 	}
 }
 
+// canWalkInterleaved: a writable view over disk buckets only (a memory bucket holds its lock for the
+// whole walk, so nothing can interleave there), nothing in flight, no ambiguous keys.
+func (m *sim) canWalkInterleaved(v view) bool {
+	if v.wb() == nil || len(m.puts) > 0 || len(m.gets) > 0 {
+		return false
+	}
+	for _, b := range v.roots() {
+		if b.kind == "mem" || m.busy(b) || b.linkedDir != "" || b.dirLink {
+			return false
+		}
+	}
+	ct := v.contents()
+	return len(ct.walkDup) == 0 && len(ct.dup) == 0 && len(ct.undef) == 0 && len(ct.objs) >= 2
+}
+
+// stepWalkInterleaved: one Walk of everything in the view whose callback is a scheduling point. While
+// the walker is parked in its k-th callback another client deletes objects and puts objects atomically
+// (tape-drawn), then the walker goes on. Oracle: a walk that reports success has visited every object
+// that was there, untouched, from before the walk started until after it ended, each visited path once,
+// and nothing that was never there. (Objects deleted or put meanwhile may or may not be visited; a walk
+// may also fail.)
+func (m *sim) stepWalkInterleaved(v view) {
+	before := map[string]string{}
+	for k, c := range v.contents().objs {
+		before[k] = c
+	}
+	touched := map[string]bool{}
+	ever := map[string]bool{}
+	for k := range before {
+		ever[k] = true
+	}
+	type cb struct{ path string }
+	atCallback := make(chan cb)
+	resume := make(chan struct{})
+	done := make(chan error, 1)
+	// in some walks the callback reads the object it was given (as storage.WalkReadObjects does) after the
+	// other client has acted, and hands back whatever error that read produced
+	readInCallback := m.tp.Draw("wil-read", 3) == 2
+	var callbackErr error
+	go func() {
+		done <- v.rb().Walk(m.ctx, "", func(info storage.ObjectInfo) error {
+			atCallback <- cb{info.Path()}
+			<-resume
+			if readInCallback {
+				if _, err := storage.ReadPath(m.ctx, v.rb(), info.Path()); err != nil {
+					callbackErr = err
+					return err
+				}
+			}
+			return nil
+		})
+	}()
+	var visited []string
+	ndel, nput := 0, 0
+	var walkErr error
+loop:
+	for {
+		select {
+		case c := <-atCallback:
+			visited = append(visited, c.path)
+			for n := m.tp.Draw("wil-actions", 3); n > 0; n-- {
+				if m.tp.Draw("wil-kind", 3) != 0 {
+					// delete an object that is there
+					keys := simfs.SortedKeys(v.contents().objs)
+					if len(keys) == 0 {
+						continue
+					}
+					k := keys[m.tp.Draw("wil-key", len(keys))]
+					b, bp := v.target(k)
+					if b == nil || m.blocked(v, k, false) || b.links[bp] {
+						continue
+					}
+					if _, ok := b.model[bp]; !ok {
+						continue
+					}
+					err := v.wb().Delete(m.ctx, k)
+					m.s.Event("walk-interleaved %s: at callback %d delete %q -> %s", v.label(), len(visited), k, classify(err))
+					if err != nil {
+						m.violate("delete-matches-model", "walk-interleaved", "Delete(%q) on %s during a walk failed: %v", k, v.label(), err)
+						continue
+					}
+					delete(b.model, bp)
+					touched[k] = true
+					ndel++
+				} else {
+					// put an object atomically: a temporary file appears beside it and is renamed
+					k := m.drawUniversePath()
+					b, bp := v.target(k)
+					if b == nil || b.inflight[bp] != nil || m.blocked(v, k, true) {
+						continue
+					}
+					content := fmt.Sprintf("put during walk %d/%d", m.counters["steps"], nput)
+					err := storage.PutPath(m.ctx, v.wb(), k, []byte(content), storage.PutWithAtomic())
+					m.s.Event("walk-interleaved %s: at callback %d atomic put %q -> %s", v.label(), len(visited), k, classify(err))
+					if err != nil {
+						m.violate("put-matches-model", "walk-interleaved", "atomic put of %q on %s during a walk failed: %v", k, v.label(), err)
+						continue
+					}
+					b.model[bp] = content
+					m.markDirs(b, bp)
+					touched[k] = true
+					ever[k] = true
+					nput++
+				}
+			}
+			resume <- struct{}{}
+		case walkErr = <-done:
+			break loop
+		}
+	}
+	m.s.Event("walk-interleaved %s -> %s visited=%d deleted=%d put=%d", v.label(), classify(walkErr), len(visited), ndel, nput)
+	if ndel+nput > 0 {
+		m.s.Probe("walk-interleaved-with-writes")
+	}
+	if callbackErr != nil {
+		// (the object the callback was given had been deleted by the time it read it)
+		m.s.Probe("walk-interleaved-callback-failed")
+		if walkErr == nil {
+			m.violate("walk-matches-model", "walk-interleaved|callback-error-swallowed", "a Walk of %s reported success although its callback had returned an error (%s) and the walk had stopped there, after %d of %d objects", v.label(), classify(callbackErr), len(visited), len(before))
+		}
+		return
+	}
+	if walkErr != nil {
+		m.s.Probe("walk-interleaved-failed")
+		return
+	}
+	seen := map[string]int{}
+	for _, g := range visited {
+		seen[g]++
+	}
+	after := v.contents().objs
+	for _, g := range simfs.SortedKeys(seen) {
+		if seen[g] > 1 {
+			m.violate("walk-each-once", "walk-interleaved", "a Walk of %s with writes in between visited %q %d times", v.label(), g, seen[g])
+		}
+		if !ever[g] && !simfs.IsTemp(g) {
+			m.violate("walk-matches-model", "walk-interleaved", "a Walk of %s with writes in between visited %q, which was not there at any time", v.label(), g)
+		}
+	}
+	for _, k := range simfs.SortedKeys(before) {
+		if touched[k] || after[k] != before[k] {
+			continue
+		}
+		if seen[k] == 0 {
+			m.violate("walk-matches-model", "walk-interleaved|stable-object-missed", "a Walk of %s reported success but did not visit %q, which was there, untouched, before, during and after the walk (%d objects deleted and %d put while it ran; it visited %d of %d)", v.label(), k, ndel, nput, len(visited), len(before))
+		}
+	}
+}
+
 // walkFails: must a Walk of everything in v fail because of an ambiguous key?
 func walkFails(v view) bool {
 	return len(v.contents().walkDup) > 0
@@ -2561,7 +2710,12 @@ func Run(tp *tape.Tape, env *engine.Env) *engine.Outcome {
 			m.stepStat(v)
 		case op == 10 || op == 11:
 			name = "walk"
-			m.walkCheck(v, m.drawPrefix(), "walk")
+			if tp.Draw("walkinterleaved", 3) == 2 && m.canWalkInterleaved(v) {
+				name = "walk-interleaved"
+				m.stepWalkInterleaved(v)
+			} else {
+				m.walkCheck(v, m.drawPrefix(), "walk")
+			}
 		case op <= 14 && writable:
 			name = "put"
 			if len(m.puts) < 3 {
